@@ -544,3 +544,62 @@ Proof.
     destruct (K [97] _ (or_introl eq_refl) [120] _ eq_refl eq_refl) as (x & L & [(_ & _ & W)|[(N & _)|(N & _)]]);
       vm_compute in L; injection L as <-; [cbn in W; discriminate W|discriminate N|discriminate N].
 Qed.
+
+(* ------------------------------------------------------------------ T2 in full for schemas without bounded Floats *)
+
+Definition schema_float_free (s : schema) : bool :=
+  match s with
+  | SConfig _ keys => forallb (fun kt => no_bounded_float (snd kt)) keys
+  | SMap _ t => no_bounded_float t
+  end.
+Definition schemas_float_free (schemas : list schema) : bool := forallb schema_float_free schemas.
+
+Lemma no_bounded_float_sane t : no_bounded_float t = true -> sane_ty t = true.
+Proof.
+  induction t; cbn [no_bounded_float sane_ty]; intros H; try reflexivity.
+  - destruct mn; [discriminate|]. destruct mx; [discriminate|]. reflexivity.
+  - apply andb_true_iff in H. destruct H. now rewrite IHt1, IHt2.
+  - auto.
+Qed.
+
+Lemma assoc_In {B} k (l : list (str * B)) v : assoc k l = Some v -> In (k, v) l.
+Proof.
+  induction l as [|[k' v'] l IH]; cbn; [discriminate|].
+  destruct (str_eqb k k') eqn:E; [apply str_eqb_eq in E; intros H; injection H as <-; subst; auto|auto].
+Qed.
+
+(* the full statement of T2 (no assumption on float()) for every schema list in which no
+   Float has a declared minimum or maximum -- in particular the core and the five bundled
+   extension schemas, which contain no Float at all (checked on the introspected real
+   schemas by the harness on every run: obligation side-condition:float-free-schemas) *)
+Lemma result_complete_sound_float_free o raw schemas :
+  schemas_float_free schemas = true ->
+  raw_ok raw -> NoDup (map schema_name schemas) -> Forall schema_ok schemas ->
+  exists C E, validate true o raw schemas = Ok (C, E) /\
+    forall n keys, In (SConfig n keys) schemas ->
+    forall k t, assoc k keys = Some t -> is_deprecated t = false ->
+      key_verdict o t (raw_get raw n k) (lookup2 C n k) (lookup2 E n k).
+Proof.
+  intros FF RO ND SO.
+  destruct (validate_spec o raw schemas RO ND SO) as (C & E & V & P & _).
+  exists C, E. split; [exact V|]. intros n keys IN k t K DEP.
+  assert (no_bounded_float t = true) as NB.
+  { unfold schemas_float_free in FF. rewrite forallb_forall in FF. specialize (FF _ IN).
+    cbn [schema_float_free] in FF. rewrite forallb_forall in FF. exact (FF _ (assoc_In _ _ _ K)). }
+  specialize (P _ IN k). cbn [schema_name ventry] in P. unfold entry in P. rewrite K, DEP in P.
+  unfold key_verdict.
+  destruct (raw_get raw n k) as [r|].
+  - destruct (deserialize o t r) eqn:D; injection P as -> ->.
+    + exists a. split; [reflexivity|].
+      destruct (deserialize_sound_float_free o t NB (no_bounded_float_sane t NB) r a D) as [(-> & O & EM)|(NE & W)].
+      * right. right. repeat split; eauto.
+      * left. auto.
+    + exists VNone. split; [reflexivity|]. right. left. split; [reflexivity|discriminate].
+    + exists VNone. split; [reflexivity|]. right. left. split; [reflexivity|discriminate].
+  - injection P as -> ->. exists VNone. split; [reflexivity|]. right. left. split; [reflexivity|discriminate].
+Qed.
+
+(* the side condition is exactly where the nan defect can bite: the refuting schema is not float-free *)
+Example refuting_schema_not_float_free :
+  schemas_float_free [SConfig [97] [([120], TFloat false (Some (FFin 0 1)) (Some (FFin 1 1)))]] = false.
+Proof. reflexivity. Qed.
